@@ -131,6 +131,12 @@ def call(op, bundle):
         complete = dsw.get_complete_accessor(observed_length=k)
         return dsw.remove_nasty_arc(accessor=complete, latter_map=dsw.accessor_to_latter_map(complete),
                                     verbose=verbose)[2]
+    if f == "prune_then_trim":
+        # documented in-place arc removal applied to objects the caller owns: the pruned map returned by
+        # remove_useless and a private copy of the accessor rebuilt from it
+        pruned = dsw.remove_useless(latter_map=bundle["latter_map"], threshold=op["threshold"])
+        rebuilt = dsw.latter_map_to_accessor(latter_map=pruned, observed_length=k)
+        return dsw.remove_nasty_arc(accessor=rebuilt, latter_map=pruned)[2]
     if f == "calculus":
         function = {"add": dsw.calculus_addition, "sub": dsw.calculus_subtraction,
                     "mul": dsw.calculus_multiplication, "div": dsw.calculus_division}[op["op"]]
